@@ -377,6 +377,14 @@ C16_Flush(I, ev) ==
     ELSE (I.orig.p > 0 /\ I.padded >= I.L + 4 + CeilDiv(I.orig.q, I.orig.p) + ev.pre.in_max) =>
            I.totOut * I.orig.q + I.orig.p + I.orig.q >= I.supplied * I.orig.p
 
+\* the allocating wrappers (process, process_partial and their VecResampler forms) return, per channel, exactly
+\* the frames written - and EMPTY vectors for masked-out channels
+C16_WrapperShape(I, ev) ==
+  (ProcOk(ev) /\ ev.via \in {"alloc", "vec_alloc"}) =>
+    \A c \in 1..Len(ev.hi) :
+      LET act == IF ev.has_mask /\ c <= Len(ev.mask) THEN ev.mask[c] ELSE TRUE
+      IN ev.hi[c] = (IF act THEN ev.nout ELSE 0)
+
 \* the object-safe VecResampler wrapper forwards every getter unchanged
 C16_VecForward(I, ev) ==
   (ev.ev = "getters" /\ "gv" \in DOMAIN ev) =>
